@@ -478,3 +478,45 @@ Proof.
   change (tl (s0 :: s1 :: sh)) with (s1 :: sh). change (hd 0%nat (s0 :: s1 :: sh)) with s0.
   change (last (s0 :: s1 :: sh) 0%nat) with (last (s1 :: sh) 0%nat). rewrite n2q_add. ring.
 Qed.
+
+(* ------------------------------------------------------------------ within bounds: a fraction q <= 1 never asks for more than the size *)
+(* brentq returns a point of its bracket [0, max(q, 1)]: for q <= 1 that is 0 <= c <= 1, and then every rank max(rounding_fun(c I_k), 1) is at
+   most I_k, whatever the rounding mode *)
+Lemma qround_nat_le rd x (s : nat) : (0 <= x)%Q -> (x <= n2q s)%Q -> qround_nat rd x <= s.
+Proof.
+  intros H0 Hs. unfold qround_nat. apply Nat2Z.inj_le. rewrite Z2Nat.id.
+  - unfold n2q in Hs. destruct rd; cbn [qround].
+    + pose proof (round_half_even_spec x) as [[H1 _] _]. cbv zeta in H1. set (z := round_half_even x) in *.
+      assert (H : (inject_Z z < inject_Z (Z.of_nat s + 1))%Q) by (rewrite inject_Z_plus; change (inject_Z 1) with 1%Q; lra).
+      rewrite <- Zlt_Qlt in H. lia.
+    + pose proof (qround_floor_spec x) as [H1 _]. cbn [qround] in H1.
+      assert (H : (inject_Z (Qfloor x) <= inject_Z (Z.of_nat s))%Q) by lra. rewrite <- Zle_Qle in H. exact H.
+    + pose proof (qround_ceil_spec x) as [H1 _]. cbn [qround] in H1.
+      assert (H : (inject_Z (Qceiling x) < inject_Z (Z.of_nat s + 1))%Q) by (rewrite inject_Z_plus; change (inject_Z 1) with 1%Q; lra).
+      rewrite <- Zlt_Qlt in H. lia.
+  - destruct rd; cbn [qround].
+    + pose proof (round_half_even_spec x) as [[_ H2] _]. cbv zeta in H2. set (z := round_half_even x) in *.
+      assert (H : (inject_Z (-1) < inject_Z z)%Q) by (change (inject_Z (-1)) with (-1 # 1)%Q; lra).
+      rewrite <- Zlt_Qlt in H. lia.
+    + change 0%Z with (Qfloor 0). now apply Qfloor_resp_le.
+    + change 0%Z with (Qceiling 0). now apply Qceiling_resp_le.
+Qed.
+Theorem frac_ranks_le rd c : (0 <= c)%Q -> (c <= 1)%Q -> forall shape k, Forall (fun s => 1 <= s) shape -> k < length shape ->
+  nth k (frac_ranks rd c (map n2q shape)) 0 <= nth k shape 0.
+Proof.
+  intros H0 H1 shape k Hpos Hk. unfold frac_ranks. rewrite map_map.
+  rewrite (nth_map' _ _ _ 0) by exact Hk. set (s := nth k shape 0).
+  assert (Hs : 1 <= s) by (rewrite Forall_forall in Hpos; apply Hpos, nth_In, Hk).
+  pose proof (n2q_nonneg s) as Hn.
+  assert (Hx0 : (0 <= Qred (n2q s * c))%Q) by (rewrite Qred_correct; nra).
+  assert (Hxs : (Qred (n2q s * c) <= n2q s)%Q) by (rewrite Qred_correct; nra).
+  pose proof (qround_nat_le rd _ s Hx0 Hxs). lia.
+Qed.
+Theorem validate_tucker_rank_frac_le shape q rd c r : validate_tucker_rank shape (RFrac q) rd c = Ok r ->
+  (0 <= c)%Q -> (c <= 1)%Q -> Forall (fun s => 1 <= s) shape -> length r = length shape /\ forall k, k < length shape -> 1 <= nth k r 0 <= nth k shape 0.
+Proof.
+  intros H H0 H1 Hpos. simpl in H. apply Ok_inj in H. subst r. split; [now rewrite frac_ranks_length, map_length|].
+  intros k Hk. split; [|now apply frac_ranks_le].
+  pose proof (frac_ranks_pos rd c (map n2q shape)) as Hp. rewrite Forall_forall in Hp. apply Hp, nth_In.
+  now rewrite frac_ranks_length, map_length.
+Qed.
